@@ -157,3 +157,19 @@ def convert(path):
         name = "stratum_" + name
         subs[name] = b if b is not None else {"k": "Seq", "sid": -1, "stmts": []}
     return {"relations": rels, "main": main, "subroutines": subs}
+
+def stored_relations(RP):
+    """relations written by an output/printsize IO statement (generated C++ never clears them)"""
+    out = []
+    def walk(s):
+        if s["k"] == "Seq":
+            for c in s["stmts"]:
+                walk(c)
+        elif s["k"] == "Loop":
+            walk(s["body"])
+        elif s["k"] == "IO" and s["op"] in ("output", "printsize") and s["rel"] not in out:
+            out.append(s["rel"])
+    walk(RP["main"])
+    for b in RP["subroutines"].values():
+        walk(b)
+    return out
